@@ -198,6 +198,7 @@ func (w *vocWorld) recv() (vocEv, bool) {
 // opcache.free() is observed as "endbatch".  first: actions placed into the first batch –
 // afterFetch runs between the return of epoll_wait and the loop's next statement, beforeDispatch at the entry of p.Handler.
 func (w *vocWorld) pump(emit func(string) bool, afterFetch, beforeDispatch func()) bool {
+	fetched := false
 	for {
 		ev, ok := w.recv()
 		if !ok || ev.kind != 1 {
@@ -208,11 +209,14 @@ func (w *vocWorld) pump(emit func(string) bool, afterFetch, beforeDispatch func(
 		}
 		if ev.n <= 0 || ev.wop {
 			w.resume <- struct{}{}
-			if ev.n <= 0 {
+			if ev.n <= 0 && fetched {
 				return true // msec = -1: the loop blocks until something arrives
 			}
+			// an empty return before the round's batch (epoll_wait interrupted by a signal – the Go runtime preempts with
+			// SIGURG – or the wake-up descriptor alone): the data sent in this round is still to come
 			continue
 		}
+		fetched = true
 		w.hookBatch = ev.batch
 		emit("fetch")
 		if afterFetch != nil {
